@@ -775,7 +775,7 @@ def mpc_atanh(z, prec, rnd=round_fast):
     b = mpc_sub(mpc_one, z, wp)
     a = mpc_log(a, wp)
     b = mpc_log(b, wp)
-    v = mpc_shift(mpc_sub(a, b, wp), -1)
+    v = mpc_shift(mpc_sub(a, b, prec, rnd), -1)
     # Subtraction at infinity gives correct imaginary part but
     # wrong real part (should be zero)
     if v[0] == fnan and mpc_is_inf(z):
